@@ -11,6 +11,9 @@
 (* successful CreateSession of the history (a closed one is "stale"),       *)
 (* 8 = a forged token, 0 = the null token.                                  *)
 (* Channel ids are abstract: the n-th distinct id the server hands out.     *)
+(* Time is abstract: Tick(d) lets d units pass; a session has a timeout tmo  *)
+(* (0 = never, 2 = "between 2 and 3 units") and an idle clock that restarts  *)
+(* whenever the server records a request of the session.                     *)
 (* Every action yields one observation record `evt' (same fields for every  *)
 (* event so that a field has one type).                                     *)
 (***************************************************************************)
@@ -30,7 +33,8 @@ Forged == 8
 Null == 0
 NonceKinds == {"userenc", "x509"}          \* identity tokens that are bound to the session nonce
 
-Free == [state |-> "free", act |-> FALSE, conn |-> 0, chan |-> 0, to |-> FALSE, gen |-> 0]
+Free == [state |-> "free", act |-> FALSE, conn |-> 0, chan |-> 0, tmo |-> 0, idle |-> 0, gen |-> 0]
+TimedOut(s) == s.state = "open" /\ s.tmo > 0 /\ s.idle > s.tmo
 
 \* the secure channel ids handed out so far: cnt[0] server wide, cnt[c] by connection c
 NewChan(c) == IF DevChanPerConn THEN cnt[c] + 1 ELSE cnt[0] + 1
@@ -44,22 +48,22 @@ Init ==
   /\ evt = [ev |-> "Init"]
 
 Live(t) == t \in Slots /\ sess[t].state = "open"
-Proj(ss) == [s \in Slots |-> [state |-> ss[s].state, act |-> ss[s].act, chan |-> ss[s].chan]]
+Proj(ss) == [s \in Slots |-> [state |-> ss[s].state, act |-> ss[s].act, chan |-> ss[s].chan, to |-> TimedOut(ss[s])]]
 
 Rec(ev, c, t, kind, cred, g, class, code, effect, ss, ch) ==
-  [ev |-> ev, conn |-> c, tok |-> t, kind |-> kind, cred |-> cred, g |-> g, fail |-> "none",
+  [ev |-> ev, conn |-> c, tok |-> t, kind |-> kind, cred |-> cred, g |-> g, fail |-> "none", d |-> 0, tmo |-> 0,
    class |-> class, code |-> code, effect |-> effect,
    chan |-> IF c \in Conns THEN ch[c] ELSE 0,                   \* the connection's current channel id (a fact)
-   beyond |-> IF t \in Slots THEN ss[t].to ELSE FALSE,          \* more than the session timeout has elapsed (a fact)
+   beyond |-> IF t \in Slots THEN TimedOut(ss[t]) ELSE FALSE,   \* what the server's own bookkeeping says (not used by the judge)
    st |-> Proj(ss)]
 
 -----------------------------------------------------------------------------
-CreateSession(c) ==
+CreateSession(c, tmo) ==
   /\ \E s \in Slots : sess[s].state = "free"
   /\ LET s == CHOOSE x \in Slots : sess[x].state = "free" /\ \A y \in Slots : sess[y].state = "free" => x <= y
-         ss == [sess EXCEPT ![s] = [state |-> "open", act |-> FALSE, conn |-> c, chan |-> chan[c], to |-> FALSE, gen |-> 0]]
+         ss == [sess EXCEPT ![s] = [state |-> "open", act |-> FALSE, conn |-> c, chan |-> chan[c], tmo |-> tmo, idle |-> 0, gen |-> 0]]
      IN /\ sess' = ss
-        /\ evt' = Rec("Create", c, s, "", "", 0, "ok", "Good", FALSE, ss, chan)
+        /\ evt' = [Rec("Create", c, s, "", "", 0, "ok", "Good", FALSE, ss, chan) EXCEPT !.tmo = tmo]
   /\ UNCHANGED <<chan, cnt>>
 
 \* kind: anon | user (plain password) | userenc (password encrypted with the nonce of generation g) |
@@ -71,13 +75,14 @@ AuthOK(t, kind, cred, g) ==
 ActivateSession(c, t, kind, cred, g) ==
   LET s == sess[t]
       code == IF ~Live(t) THEN "BadSessionIdInvalid"
-              ELSE IF s.to THEN "BadSessionIdInvalid"
+              ELSE IF TimedOut(s) THEN "BadSessionIdInvalid"
               ELSE IF ~AuthOK(t, kind, cred, g) THEN "BadAuth"
               ELSE IF ~s.act /\ s.chan # chan[c] THEN "BadSecureChannelIdInvalid"
               ELSE "Good"
-      ss == IF ~Live(t) \/ s.to THEN sess
-            ELSE IF code = "Good" THEN [sess EXCEPT ![t].act = TRUE, ![t].chan = chan[c], ![t].conn = c, ![t].gen = @ + 1]
-            ELSE [sess EXCEPT ![t].act = FALSE]                  \* a failed activation de-activates the session
+      ss == IF ~Live(t) \/ TimedOut(s) THEN sess              \* a request refused for the timeout changes nothing
+            \* the request is recorded as activity of the session whether the activation succeeds or not
+            ELSE IF code = "Good" THEN [sess EXCEPT ![t].act = TRUE, ![t].chan = chan[c], ![t].conn = c, ![t].gen = @ + 1, ![t].idle = 0]
+            ELSE [sess EXCEPT ![t].act = FALSE, ![t].idle = 0]   \* a failed activation de-activates the session
   IN /\ sess' = ss
      /\ evt' = Rec("Activate", c, t, kind, cred, g, IF code = "Good" THEN "ok" ELSE "fault", code, FALSE, ss, chan)
      /\ UNCHANGED <<chan, cnt>>
@@ -97,11 +102,13 @@ Service(c, kind, t) ==
   LET code == IF ~Live(t) THEN "BadSessionIdInvalid"
               ELSE IF ~sess[t].act THEN "BadSessionNotActivated"
               ELSE IF sess[t].chan # chan[c] THEN "BadSessionIdInvalid"
-              ELSE IF sess[t].to THEN "BadSessionIdInvalid"
+              ELSE IF TimedOut(sess[t]) THEN "BadSessionIdInvalid"
               ELSE "Good"
-  IN /\ evt' = Rec("Service", c, t, kind, "", 0, IF code = "Good" THEN "ok" ELSE "fault", code,
-                   code = "Good" /\ kind \in {"Write", "CreateSub"}, sess, chan)
-     /\ UNCHANGED <<sess, chan, cnt>>
+      ss == IF code = "Good" THEN [sess EXCEPT ![t].idle = 0] ELSE sess      \* only a request that is carried out is recorded
+  IN /\ sess' = ss
+     /\ evt' = Rec("Service", c, t, kind, "", 0, IF code = "Good" THEN "ok" ELSE "fault", code,
+                   code = "Good" /\ kind \in {"Write", "CreateSub"}, ss, chan)
+     /\ UNCHANGED <<chan, cnt>>
 
 \* GetEndpoints | FindServers: no session needed
 Discovery(c, kind) ==
@@ -115,11 +122,11 @@ ChannelChange(c) ==
      /\ evt' = Rec("ChannelChange", c, Null, "", "", 0, "ok", "Good", FALSE, sess, ch)
      /\ UNCHANGED sess
 
-\* more than the session timeout elapses without a request of session t
-TimePasses(t) ==
-  /\ Live(t)
-  /\ LET ss == [sess EXCEPT ![t].to = TRUE]
-     IN /\ sess' = ss
-        /\ evt' = Rec("TimePasses", 0, t, "", "", 0, "ok", "Good", FALSE, ss, chan)
-  /\ UNCHANGED <<chan, cnt>>
+\* d units of time pass (the idle clocks are capped just beyond the timeout)
+Tick(d) ==
+  LET ss == [s \in Slots |-> IF sess[s].state = "open" /\ sess[s].tmo > 0
+                              THEN [sess[s] EXCEPT !.idle = IF @ + d > sess[s].tmo THEN sess[s].tmo + 1 ELSE @ + d] ELSE sess[s]]
+  IN /\ sess' = ss
+     /\ evt' = [Rec("Tick", 0, Null, "", "", 0, "ok", "Good", FALSE, ss, chan) EXCEPT !.d = d]
+     /\ UNCHANGED <<chan, cnt>>
 =============================================================================
